@@ -80,6 +80,26 @@ pub fn regroup_cnf(rng: &mut Rng, nmax: usize) -> Option<(Vec<Vec<(usize, bool)>
     Some((cl, vec![s1, s2], nv))
 }
 
+/// LONG clauses (needs >= 10 variables): an implication s -> x and a clause of 9 or more literals of mixed polarity that starts
+/// with !x, plus a few short clauses (data structures that treat clauses of more than 8 literals differently)
+pub fn long_clause_cnf(rng: &mut Rng, nmax: usize) -> (Vec<Vec<(usize, bool)>>, usize) {
+    let p = rng.perm(nmax);
+    let (s, x) = (p[0], p[1]);
+    let k = rng.range(8, nmax - 2);
+    let mut long: Vec<(usize, bool)> = vec![(x, false)];
+    for i in 0..k {
+        long.push((p[2 + i], (i % 2 == 0) ^ rng.chance(1, 4)));
+    }
+    let mut c = vec![vec![(s, false), (x, true)], long];
+    for _ in 0..rng.below(3) {
+        c.push((0..rng.range(1, 3)).map(|_| (rng.below(nmax), rng.coin())).collect());
+    }
+    for i in (1..c.len()).rev() {
+        c.swap(i, rng.below(i + 1));
+    }
+    (c, s)
+}
+
 pub fn mk_cnf(c: &[Vec<(usize, bool)>]) -> Cnf {
     let cl: Vec<Vec<Literal>> = c
         .iter()
@@ -157,6 +177,15 @@ pub fn record_sat(args: &Args) {
     for _ in 0..segs {
         let mut script: std::collections::VecDeque<Option<(usize, bool)>> = Default::default();
         let mut c = if wide { wide_cnf(&mut rng, nmax, 25) } else { rand_cnf(&mut rng, nmax, 8, 25) };
+        if nmax >= 10 && rng.chance(2, 3) {
+            let (cl, sel) = long_clause_cnf(&mut rng, nmax);
+            c = cl;
+            // scripted prefix: the selector both ways (the two states differ in the residual of the long clause)
+            for p in [true, false] {
+                script.push_back(Some((sel, p)));
+                script.push_back(None);
+            }
+        }
         if regroup && rng.chance(1, 4) {
             if let Some((cl, sels, _)) = regroup_cnf(&mut rng, nmax) {
                 // scripted prefix: falsify selector 1 (and satisfy selector 2), look, undo; then the other way round
@@ -571,7 +600,14 @@ pub fn record_topdown(args: &Args) {
     for _ in 0..segs {
         // families engineered to hit the component cache: few variables, many short clauses
         let mut c = rand_cnf(&mut rng, nmax, 9, 25);
-        if rng.chance(1, 4) && nmax >= 3 {
+        let long = nmax >= 10 && rng.chance(2, 3);
+        let mut long_first: Vec<usize> = vec![];
+        if long {
+            let (cl, sel) = long_clause_cnf(&mut rng, nmax);
+            c = cl;
+            long_first = vec![sel]; // the selector is decided first
+        }
+        if !long && rng.chance(1, 4) && nmax >= 3 {
             // engineered family: unit clauses on some variables plus an (almost) complete set of
             // two-variable clauses on two others: (un)satisfiability is only found by search, after the
             // initial unit propagation has already implied literals
@@ -598,7 +634,7 @@ pub fn record_topdown(args: &Args) {
         // parity family: x_a ^ x_b ^ x_c = p as four clauses of width 3, optionally chained with a second constraint that shares
         // a variable, optionally among a few ordinary clauses: a sub-function occurs both plain and negated, so the semantic store
         // builds complemented edges INSIDE the diagram (conditioning below such a shared node is what a polarity slip needs)
-        if rng.chance(1, 5) && nmax >= 3 {
+        if !long && rng.chance(1, 5) && nmax >= 3 {
             let p = rng.perm(nmax);
             c = vec![];
             let mut xor3 = |c: &mut Vec<Vec<(usize, bool)>>, a: usize, b: usize, d: usize, par: bool| {
@@ -627,8 +663,8 @@ pub fn record_topdown(args: &Args) {
         // regrouping family: two assignments of the selector variables leave residual CNFs with the same literals grouped
         // differently (a component-cache key that forgets clause boundaries answers one with the other's diagram);
         // the selectors are decided first
-        let mut first: Vec<usize> = vec![];
-        if rng.chance(1, 6) {
+        let mut first: Vec<usize> = long_first;
+        if !long && rng.chance(1, 6) {
             if let Some((cl, sels, _)) = regroup_cnf(&mut rng, nmax) {
                 c = cl;
                 first = vec![sels[0].0];
